@@ -141,16 +141,21 @@ LineClause(l, W, Over, mode0, contd) ==
           ELSE IF mx + Over > W THEN "near"
           ELSE "long"
 
-\* all lines of a text: sequence of <<line number, clause>> for the offending lines
+\* One pass over a text: the reading (stmts, ends) and bad = <<line number, clause>> of the offending lines.
 RECURSIVE LineScan(_, _, _, _, _, _)
 LineScan(S, lines, i, W, Over, bad) ==
-  IF i > Len(lines) THEN bad
+  IF i > Len(lines) THEN [S |-> S, bad |-> bad]
   ELSE LET l == lines[i]
            \* blank, comment-only and preprocessor lines carry no tokens (comments are exempt)
-           cl == IF Skipped(l, S.st, S.contd) THEN "ok"
+           cl == IF Len(l) <= W \/ Skipped(l, S.st, S.contd) THEN "ok"
                  ELSE LineClause(l, W, Over, IF InChar(S.st) THEN S.st.m ELSE "c", S.contd)
        IN LineScan(DoLine(S, l, i), lines, i + 1, W, Over, IF cl = "ok" THEN bad ELSE Append(bad, <<i, cl>>))
-BadLines(lines, W, Over) == LineScan(Start, lines, 1, W, Over, <<>>)
+ReadChecked(lines, W, Over) ==
+  LET r == LineScan(Start, lines, 1, W, Over, <<>>) IN
+  [stmts |-> IF r.S.contd THEN Append(r.S.stmts, Append(Close(r.S.st), <<1>>)) ELSE r.S.stmts,
+   ends |-> IF r.S.contd THEN Append(r.S.ends, Len(lines)) ELSE r.S.ends,
+   bad |-> r.bad]
+BadLines(lines, W, Over) == ReadChecked(lines, W, Over).bad
 
 (* --------------------------------------------------- comparing statements *)
 Min(a, b) == IF a < b THEN a ELSE b
@@ -214,17 +219,30 @@ PieceTokens(ps, i, acc) == IF i > Len(ps) THEN acc ELSE PieceTokens(ps, i + 1, a
 \* names, brackets, operators and expression strings), and no piece contains `&` or `!` outside a literal.
 Aligned(top) == Flatten(Statements(<<Text(top)>>), 1, <<>>) = PieceTokens(Pieces(top), 1, <<>>)
 
-\* The acceptance of one level (i) case: "ok" or <<clause, position>>
-\*   c = [top (a described list), width, cont0 (end-of-line string without the newline), cont1, out (lines)]
-Accept1(c) ==
-  LET want == Flatten(Statements(<<Text(c.top)>>), 1, <<>>)
-      got == Flatten(Statements(c.out), 1, <<>>)
-      bad == BadLines(c.out, c.width, Len(c.cont0) + Len(c.cont1))
+\* what kind of token t is (for the normal-form keys)
+TokKind(t) == IF t[1] \in {SQ, DQ} THEN
+                  (IF \E i \in 2..(Len(t) - 2) : t[i] = t[1] /\ t[i + 1] = t[1] THEN "literal-doubled-quote" ELSE "literal")
+              ELSE IF IsWord(t[1]) THEN "word" ELSE "punct"
+\* "No line shall contain a single & as the only nonblank character" (6.3.2.4): first such line, 0 if none
+RECURSIVE LoneAmp(_, _)
+LoneAmp(lines, i) == IF i > Len(lines) THEN 0
+                     ELSE LET l == lines[i] f == FirstNB(l, 1) IN
+                          IF f <= Len(l) /\ l[f] = AMP /\ LastNB(l, Len(l)) = f THEN i ELSE LoneAmp(lines, i + 1)
+
+\* The acceptance of one printed form of a described list: <<>> or <<clause, position>>
+\*   want = the tokens of Text(top);  x = [width, cont0 (end-of-line string without the newline), cont1, out (lines)]
+Accept1(want, x) ==
+  LET rd == ReadChecked(x.out, x.width, Len(x.cont0) + Len(x.cont1))
+      got == Flatten(rd.stmts, 1, <<>>)
       d == FirstDiff(want, got)
-  IN IF Len(Statements(c.out)) > 1 THEN <<"statement-split", 2>>
-     ELSE IF d # 0 THEN <<"tokens", d>>
+      lone == LoneAmp(x.out, 1)
+      bad == rd.bad
+  IN IF lone # 0 THEN <<"lone-ampersand", lone>>
+     ELSE IF Len(rd.stmts) > 1 THEN <<"statement-split", rd.ends[1]>>
+     ELSE IF d # 0 /\ \E k \in DOMAIN got : got[k] = <<AMP>> THEN <<"stray-ampersand", d>>
+     ELSE IF d # 0 THEN <<"tokens:" \o (IF d <= Len(want) THEN TokKind(want[d]) ELSE "count"), d>>
      ELSE IF bad # <<>> THEN <<"line-" \o bad[1][2], bad[1][1]>>
-     ELSE <<"ok", 0>>
+     ELSE <<>>
 
 (* -------------------------------- a reference wrapper (design-level check) *)
 \* Greedy wrapping of a token sequence into lines of width W with continuation strings c0 (end of line) and c1
